@@ -83,6 +83,13 @@ def step (st : St) (ws : List String) : St × String :=
       let m := (Builder.mk (natOf id) (notify = "1") (natOf ec) (natOf qf) (natOf bf) q b).build
       (st, joinSp [idx, hexOfBytes m.toVec])
     | _, _ => (st, idx ++ " bad-op")
+  | ["bodyfmt", idx, which, id, q, _value, body] =>
+    -- the builder's serialising body setters: format code of the setter, the serialised value as body
+    match bytesOfHex q, bytesOfHex body with
+    | some q, some body =>
+      let bf := if which = "utf8" then 3 else if which = "json" then 2 else 1
+      (st, joinSp [idx, hexOfBytes (Builder.mk (natOf id) false 0 1 bf q body).build.toVec])
+    | _, _ => (st, idx ++ " bad-op")
   | ["sink", idx] =>
     -- everything written to one persistent sink since the last `sink`: the frames, in order, nothing else
     let all := st.frames.reverse.flatten
